@@ -1,6 +1,7 @@
 import TakVerif.Proofs.FPAMini
 import TakVerif.Proofs.FPAFast
 import TakVerif.Proofs.FPAPinned
+import TakVerif.Proofs.FPAFrameTop
 
 /-! # C20 — first-player-advantage opening scripts always produce legal, self-accepted moves
 
@@ -21,7 +22,7 @@ counterpart of `Position.AllMoves`, C03; the exhaustive correspondence `fpaopts`
 it yields with those of the real generator for every node of every opening, sizes 4..8), and the link
 from `Spec.step` to the bit-level `Position.Move` (C01). -/
 namespace C20
-open Tak Tak.FPA Spec.FPA Proofs.FPA Proofs.FPAMini Proofs.FPAPinned Proofs.FPAFast
+open Tak Tak.FPA Spec.FPA Proofs.FPA Proofs.FPAMini Proofs.FPAPinned Proofs.FPAFast Proofs.FPAFrame
 
 /-- C20 for one variant, bot colour and board size -/
 def Holds (var : Variant) (color : Color) (size horizon : Nat) : Prop :=
@@ -97,6 +98,20 @@ generator is left out), and it does not build the states after the last scripted
 theorem holds_of_fcheck (var : Variant) (color : Color) (size : Nat)
     (h : fcheck var color 6 (minit size) = true) : Holds var color size 6 :=
   holds_of_check var color size (fcheck_check var color 6 (minit size) h)
+
+/-- **The cairn variant through the frame theorem** (sizes 6..8).  From ply 2 on the cairn rule reads, and the
+moves it scripts or accepts touch, only the centre squares and their neighbours (`Proofs.FPAFrame.nearS`: the
+squares `isCenterAdjacent` or `isCentered` accept — 12 on an even board, 5 on an odd one); the first stones
+elsewhere are never looked at or moved.  `Proofs.FPAFrame.check_frame` proves that two states whose boards agree
+on these squares and carry at most one piece on every other square have the same evaluation.  The claim for a
+board size then follows from (`htab`) one evaluation of the opening from ply 2 for every placement of at most
+one black and one white stone on these squares (`tab`: 157 entries on an even board, 31 on an odd one;
+`stOfKey`), and (`hroot`) the enumeration of all pairs of first stones, each looked up in the table by the
+stones it has on the squares of `mask` (`maskOK`: the mask covers `nearS`). -/
+theorem holds_of_frame (color : Color) (size mask : Nat) (tab : List (Nat × Key)) (h4 : 4 ≤ size) (h64 : size ≤ 64)
+    (hmask : maskOK size mask = true) (htab : tabOK color size tab = true)
+    (hroot : frameCheck color size mask tab = true) : Holds .cairn color size 6 :=
+  holds_of_check .cairn color size (frame_sound color size mask tab h4 h64 hmask htab hroot)
 
 /-! ## the pinned scripts violate the claim (the three defect families, on concrete openings) -/
 
